@@ -71,7 +71,7 @@ Theorem level0_deflate_then_inflate_calls (data : list N) (cflags wb : N) sched 
   N.of_nat (length out) < 2 ^ 57 -> n < 2 ^ 40 ->
   exists codes acc s',
     sfeed (is_new fmt) [] calls [] [] = Ret (codes, acc, s') /\
-    Forall code_ok codes /\ acc = firstn (length acc) (firstn (N.to_nat n) data) /\
+    Forall (fun c => c = MZ_OK \/ c = MZ_STREAM_END \/ c = MZ_ERR_BUF) codes /\ acc = firstn (length acc) (firstn (N.to_nat n) data) /\
     (In MZ_STREAM_END codes -> acc = firstn (N.to_nat n) data).
 Proof.
   intros Hraw Hwb Hbytes Hleg Hd Hz Hfl Hcat Hshort Hn40.
